@@ -273,7 +273,7 @@ func (w *c19World) newSched(c *Ctx, measure bool) *msched {
 func (w *c19World) exec(s *msched, task, i int) {
 	op := w.p.Tasks[task].Ops[i]
 	t := s.tasks[task]
-	body := func() { clockTick("the next yield (a slow consumer)"); s.yield("seam:body", "seam") } // the consumer's loop body: a schedule point while the traversal is suspended
+	body := func() { betweenSteps("the next yield (a slow consumer)"); s.yield("seam:body", "seam") } // the consumer's loop body: a schedule point while the traversal is suspended
 	if op.Kind == "cfg" {
 		bad := plantAll(*op.Cfg, op.Planted)
 		cc := bad.Config()
@@ -348,6 +348,7 @@ func (w *c19World) exec(s *msched, task, i int) {
 }
 
 func execC19Conc(p *C19Plan, c *Ctx) *Violation {
+	bgDisabled = true
 	cp := p.Conc
 	if len(cp.Tasks) == 0 {
 		return nil
@@ -530,6 +531,7 @@ func genC19Sweep(seed, idx uint64) any {
 }
 
 func genC19Conc(r *R, tier string) any {
+	bgDisabled = true
 	if r.Run%2 == 1 {
 		return genC19Sweep(r.Seed, r.Run/2)
 	}
